@@ -292,3 +292,45 @@ def directed_lengths(data, u):
             if done >= 2:
                 break
     return out
+
+
+def shared_chains(data, u):
+    """two spilling cells of one b-tree made to share an overflow chain: the first overflow page of cell A is written into cell B,
+    both declared lengths as SQLite wrote them (a chain that is too short, or too long, for one of its two users).  Every pair of
+    spilling cells of a page, both directions; and pairs across the first two pages that have any.  [(bytes, description)]"""
+    spills = []      # (page, type, offset of the 4-byte pointer in the file, declared length, first overflow page)
+    for n in all_btree_pages(data, u):
+        t, nc, rm, cells = sqlfmt.page_info(data, n, u)
+        if t not in (13, 10, 2):
+            continue
+        index = t != 13
+        base = (n - 1) * u
+        x = ((u - 12) * 64 // 255) - 23 if index else u - 35
+        for c in cells:
+            pos = c + (4 if t == 2 else 0)
+            v = sqlfmt.get_varint(data[base + pos:base + pos + 9])
+            if v is None:
+                continue
+            p, lp = v
+            if p <= x:
+                continue
+            skip = 0
+            if t == 13:
+                r = sqlfmt.get_varint(data[base + pos + lp:base + pos + lp + 9])
+                if r is None:
+                    continue
+                skip = r[1]
+            at = pos + lp + skip + sqlfmt.local_size(p, u, index)
+            if at + 4 > u:
+                continue
+            spills.append((n, t, base + at, p, struct.unpack(">I", data[base + at:base + at + 4])[0]))
+    out = []
+    for i, a in enumerate(spills):
+        for b in spills[i + 1:i + 4]:
+            if a[3] == b[3] or a[4] == b[4]:
+                continue
+            for src, dst in ((a, b), (b, a)):
+                d = bytearray(data)
+                d[dst[2]:dst[2] + 4] = struct.pack(">I", src[4])
+                out.append((bytes(d), "page %d (type %d): the cell with payload length %d now continues in overflow page %d, the chain of a cell of page %d with payload length %d" % (dst[0], dst[1], dst[3], src[4], src[0], src[3])))
+    return out
